@@ -126,6 +126,25 @@ Section PF.
     destruct ct; [|reflexivity]. rewrite E in HC. cbn in HC. rewrite HC. reflexivity.
   Qed.
 
+  (* offset mode in reverse: the same page over the collection in descending key order *)
+  Theorem offset_page_reverse (l : smap V) offset limit ct :
+    limit <> 0 -> offset + limit < two64 ->
+    paginate l {| pg_key := []; pg_offset := offset; pg_limit := limit; pg_count_total := ct; pg_reverse := true |} =
+    POk (map snd (firstn (N.to_nat limit) (skipn (N.to_nat offset) (rev l)))) (key_at (rev l) (N.to_nat (offset + limit)))
+        (if ct then Some (N.of_nat (length l)) else None).
+  Proof.
+    intros L W. unfold paginate. cbn [pg_key pg_offset pg_limit pg_count_total pg_reverse length Nat.eqb negb andb].
+    replace (limit =? 0) with false by (symmetry; apply N.eqb_neq; exact L). rewrite andb_false_r.
+    unfold iter_items. cbn [negb]. rewrite N.mod_small by exact W.
+    pose proof (offset_loop_items (rev l) 0 offset (offset + limit) ct [] []) as HI.
+    pose proof (offset_loop_next (rev l) 0 offset (offset + limit) ct [] []) as HN.
+    pose proof (offset_loop_count_total (rev l) 0 offset (offset + limit) [] []) as HC.
+    destruct (offset_loop (rev l) 0 offset (offset + limit) ct [] []) as [[items next] count] eqn:E. cbn [fst snd] in *.
+    rewrite HI, HN by lia. cbn [List.rev app]. rewrite sel_firstn_skipn by lia. rewrite nxt_nth by lia.
+    rewrite !N.sub_0_r. replace (offset + limit - offset) with limit by lia. unfold key_at.
+    destruct ct; [|reflexivity]. rewrite E in HC. cbn in HC. rewrite HC, rev_length. reflexivity.
+  Qed.
+
   (* key mode (forward): limit items starting at the first key >= the cursor, next_key = key of the next item *)
   Theorem key_page (l : smap V) key limit ct :
     limit <> 0 -> key <> [] ->
